@@ -144,4 +144,48 @@ theorem checkScc_sound (g : Graph) (comps : List (List Nat)) (h : checkScc g com
       subst this
       exact hv'
 
+
+/-- The validator is complete: it accepts every correct answer (so a harmless rewrite of the
+implementation that reports the components in another valid order is still accepted). -/
+theorem checkScc_complete (g : Graph) (comps : List (List Nat)) (hwf : Wf g) (h : IsSccOrder g comps) :
+    checkScc g comps = true := by
+  have hidx : ∀ v, v < g.length → ∃ i, ∃ hi : i < comps.length, v ∈ comps[i] ∧ compOf comps v = some i := by
+    intro v hv
+    obtain ⟨c, hc, hvc⟩ := List.mem_flatten.1 ((h.cover v).2 hv)
+    obtain ⟨i, hi, rfl⟩ := List.getElem_of_mem hc
+    exact ⟨i, hi, hvc, compOf_of_mem h.nodup hi hvc⟩
+  unfold checkScc
+  simp only [Bool.and_eq_true]
+  refine ⟨⟨⟨⟨⟨⟨(wfB_iff g).2 hwf, (nodupB_iff _).2 h.nodup⟩, ?_⟩, ?_⟩, ?_⟩, ?_⟩, ?_⟩
+  · simp only [List.all_eq_true, decide_eq_true_eq]
+    intro v hv; exact (h.cover v).1 hv
+  · simp only [List.all_eq_true, List.mem_range, List.contains_iff_mem]
+    intro v hv; exact (h.cover v).2 hv
+  · rw [List.all_eq_true]
+    intro c hc
+    have := h.nonempty c hc
+    cases c with
+    | nil => exact absurd rfl this
+    | cons a l => rfl
+  · unfold edgesBackB
+    simp only [List.all_eq_true, List.mem_range]
+    intro v hv w hw
+    obtain ⟨i, hi, hvi, ci⟩ := hidx v hv
+    obtain ⟨j, hj, hwj, cj⟩ := hidx w (hwf v w hw)
+    rw [cj, ci]
+    simp only [decide_eq_true_eq]
+    exact h.order i j hi hj v w hvi hwj (Reach.edge hw)
+  · rw [List.all_eq_true]
+    intro c hc
+    rw [List.all_eq_true]
+    intro u hu
+    rw [List.all_eq_true]
+    intro v hv
+    simp only [Bool.or_eq_true, beq_iff_eq]
+    have hun : u < g.length := (h.cover u).1 (List.mem_flatten.2 ⟨c, hc, hu⟩)
+    have hvn : v < g.length := (h.cover v).1 (List.mem_flatten.2 ⟨c, hc, hv⟩)
+    rcases ((h.scc c hc u hu v).1 hv).1 with e | p
+    · exact .inl e
+    · exact .inr ((Matrix.closure_ofGraph g hwf u v hun hvn).2 p)
+
 end TmVerif.Graph
